@@ -233,7 +233,7 @@ func parseCorpusFile(path string) ([]byte, error) {
 // seed lists.
 func TestCorpus(t *testing.T) {
 	root := corpusRoot()
-	total := 0
+	total, idx := 0, 0
 	for _, ft := range fuzzTargets {
 		files, _ := filepath.Glob(filepath.Join(root, ft.name, "*"))
 		sort.Strings(files)
@@ -242,6 +242,10 @@ func TestCorpus(t *testing.T) {
 			continue
 		}
 		for _, p := range files {
+			idx++
+			if !hx.Mine(idx) {
+				continue
+			}
 			data, err := parseCorpusFile(p)
 			if err != nil {
 				t.Errorf("VERIF-INFRA: %v", err)
@@ -255,6 +259,10 @@ func TestCorpus(t *testing.T) {
 			}
 		}
 		for i, data := range ft.seeds() {
+			idx++
+			if !hx.Mine(idx) {
+				continue
+			}
 			hx.Eval()
 			total++
 			if err := ft.fn(data); err != nil {
